@@ -67,26 +67,23 @@ UNIT = Unit(
                "  forall|i: int| 0 <= i < f0.len() ==> (#[trigger] struct_def.fields@[i]).0 == f0[i].0\n"
                "    && struct_def.fields@[i].1 == (if i < __ix && cs0[i] is Some { Ty::TStruct { name: cs0[i]->0 } } else { f0[i].1 }),\n"
                "decreases __cf@.len(),")),
-        Fn(file=L, name="transform_expr", rename="lift_call", ret="r", attrs="#[verifier::loop_isolation(false)]", rules=["attrs", ("strip", "tast::"), "opt_or_else"],
+        Fn(file=L, name="transform_expr", rename="lift_call", ret="r", attrs="#[verifier::loop_isolation(false)]", rules=["attrs", ("strip", "tast::"), "let_chain", "opt_or_else"],
            cut_from="MonoExpr::ECall { func, args, ty } => {", cut_inside=True, cut_before="@block-end", cut_tail="",
            sig="fn lift_call(state: &mut State, scope: &mut Scope, func: Box<MonoExpr>, args: Vec<MonoExpr>, ty: Ty) -> LiftExpr",
-           pre_rewrites=[INTO_MAP,
-                         # a let-chain whose body ends in `return`: the nested form is the same program
-                         (re.compile(r"if let LiftExpr::EVar \{ name, \.\. \} = &func_expr\s*&& let Some\(entry\) = scope\.get\(name\)\s*&& let Some\(struct_name\) = (entry\s*\.closure_struct\s*\.clone\(\)\s*\.or_else\(\|\| state\.closure_struct_for_ty\(&entry\.ty\)\))\s*&& let Some\(apply_fn\) = state\.apply_fn_for_struct\(&struct_name\)\s*\{(.*?)\n            \}\n", re.S),
-                          r"if let LiftExpr::EVar { name, .. } = &func_expr { if let Some(entry) = scope.get(name) { if let Some(struct_name) = \1 { if let Some(apply_fn) = state.apply_fn_for_struct(&struct_name) {\2\n            } } } }\n", 1)],
+           pre_rewrites=[INTO_MAP],
            rewrites=[VC, ("transform_expr(state, scope, *func)", "transform_expr(state, scope, unbox(func))"),
-                     (re.compile(r"let mut call_args = Vec::with_capacity\([^;]*\);"), "let mut call_args: Vec<LiftExpr> = Vec::new();", 1),
-                     ("call_args.extend(args);", "let ghost args_g = args@; vec_extend_lift(&mut call_args, args);"),
+                     (re.compile(r"let mut call_args = Vec::with_capacity\([^;]*\);"), "let mut call_args: Vec<LiftExpr> = Vec::new();", "*"),
+                     ("call_args.extend(args);", "let ghost args_g = args@; vec_extend_lift(&mut call_args, args);", "*"),
                      ("apply_fn.to_string()", "str_to_string(apply_fn)", "*"),
                      (re.compile(r"Ty::TFunc \{ ref ret_ty, \.\. \} if state\.ty_contains_closure\(ret_ty\) => \{\s*\*ret_ty\.vclone\(\)\s*\}"),
                       "Ty::TFunc { ref ret_ty, .. } if state.ty_contains_closure(ret_ty) => { ty_unbox_clone(ret_ty) }", "*"),
                      (re.compile(r"\n([ \t]*)return LiftExpr::ECall \{(.*?)\n\1\};", re.S),
-                      r"\n\1let __res = LiftExpr::ECall {\2\n\1};\n\1proof { assert(call_args@.subrange(1, call_args@.len() as int) =~= args_g); assert(call_ok(__res, fe_g, la_g, scope, state, ty)); }\n\1return __res;", 1),
+                      r"\n\1let __res = LiftExpr::ECall {\2\n\1};\n\1proof { assert(call_args@.subrange(1, call_args@.len() as int) =~= args_g); assert(call_ok(__res, fe_g, la_g, scope, state, ty)); }\n\1return __res;", "*"),
                      (re.compile(r"\n([ \t]*)LiftExpr::ECall \{\s*func: Box::new\(func_expr\),(.*?)\n\1\}\s*\n\}\s*$", re.S),
                       r"\n\1let __res2 = LiftExpr::ECall {\n\1    func: Box::new(func_expr),\2\n\1};\n\1proof { assert(call_ok(__res2, fe_g, la_g, scope, state, ty)); }\n\1__res2\n}", 1)],
-           obligation="a call whose callee is a variable that holds a closure (recorded in its scope entry, or by its type) with a registered apply "
-                      "function becomes a call of THAT apply function with the closure itself as first argument and the original arguments after "
-                      "it, in order; the call's type is unchanged",
+           obligation="a call whose callee holds a closure — a variable whose scope entry records one, or ANY callee whose lifted type is a closure "
+                      "environment (`make_adder(3)(10)`, `t.0(10)`) — with a registered apply function becomes a call of THAT apply function with "
+                      "the closure itself as first argument and the original arguments after it, in order; the call's type is unchanged",
            contract="ensures exists|fe: LiftExpr, la: Seq<LiftExpr>| #[trigger] call_ok(r, fe, la, final(scope), final(state), ty),",
            ghost=[("let func_expr = transform_expr(", "line-after", "let ghost fe_g = func_expr;"),
                   (r"@after-loop:__src", "", "let ghost la_g = args@;")],
